@@ -294,6 +294,11 @@ pub enum ReadStep {
     Scribble(u32),
     /// fail this call with ErrorKind::Interrupted
     Eintr,
+    /// before delivering at most n bytes, the reader itself calls the library
+    /// (a complete nested conversion of a small fixed document): a reader is
+    /// caller code and may do that, so whatever state the outer call holds
+    /// while it reads must tolerate re-entry
+    Reenter(u32),
 }
 
 #[derive(Serialize, Deserialize, Clone, Debug, PartialEq, Eq, Default)]
